@@ -31,6 +31,7 @@ mod c16x;
 mod streamraw;
 mod lexmath;
 mod stypes;
+mod linecol;
 
 fn main() {
     let args: Vec<String> = std::env::args().collect();
@@ -41,6 +42,7 @@ fn main() {
     let stats = args.get(4).map(|s| s.as_str());
     std::panic::set_hook(Box::new(|_| {}));
     let mut sink = common::Sink::new();
+    if prop == "C11" || prop == "C09" { linecol::run(&mut sink, prop, thorough, seed); }
     match prop {
         "C18" => c18::run(&mut sink, thorough, seed),
         "C01" | "C02" | "C11" => c01::run(&mut sink, prop, thorough, seed),
@@ -129,6 +131,7 @@ fn replay(sink: &mut common::Sink, toks: &[&str]) {
         "rawser" | "rawnest" | "stream3" | "sdepth" | "spfx" | "raw3" => streamraw::replay(sink, toks),
         "lm" => lexmath::replay(sink, toks),
         "tstream" | "tstream3" | "tsfault" | "tspfx" => stypes::replay(sink, toks),
+        "lc3" | "lcs" => linecol::replay(sink, toks),
         _ => eprintln!("cannot replay op {}", toks[0]),
     }
 }
